@@ -1,3 +1,94 @@
-import AkVerif.Model.PPrint
+import AkVerif.Lemmas.PPrintMain
+import AkVerif.Lemmas.PPrintParse
+/-!
+# C11 — pretty-printed JSON-like data reads back as the same data
+
+Property theorems only. `gen` is the chunk generator of `PrettyPrinter` (the function the driver
+runs), `text` the plain text of the result, `groupLines` the line iteration. `jsonConsts` /
+`pyConsts` are the two keyword tables read from the source; the theorems hold for **every** choice
+of the layout numbers `L` (one-line limits, wrap limit, indentation), in particular for
+`PPrint.limits`, the numbers read from the source, and at every offset.
+
+Domain (`WF`): strings and keys without `"`, `\` and control characters; number tokens are the
+opaque text `str()` printed (digits, sign, `.`, `e`); no hypothesis on shapes, sizes, nesting.
+`norm v` = `v` with the entries of every dict in sorted key order (`norm_perm`, `keys_sorted`).
+-/
 namespace C11
+open PPrint
+
+/-- the keyword tables of the source are three distinct non-empty words each (re-decided by the
+kernel whenever the source changes) -/
+theorem consts_ok : jsonConsts.ok = true ∧ pyConsts.ok = true := by decide
+
+/-- Nothing is lost, duplicated or reordered, in any layout: the tokens of the printed text are
+exactly the tokens of `norm v` — every element of every container once, in order, one comma
+between neighbours, every key followed by its colon and its value. Covers the one-line, the
+wrapped and the one-item-per-line layouts and every combination of them under nesting. -/
+theorem no_loss (L : Limits) (v : J) (off : Nat) (h : WF v) :
+    lex jsonConsts (text (gen jsonConsts L v off)) = some (toks (norm v)) ∧
+    lex pyConsts (text (gen pyConsts L v off)) = some (toks (norm v)) := by
+  constructor
+  · have := lex_gen jsonConsts consts_ok.1 L v h off [] Delim_nil
+    simpa [lex, lexGo, finish] using this
+  · have := lex_gen pyConsts consts_ok.2 L v h off [] Delim_nil
+    simpa [lex, lexGo, finish] using this
+
+/-- Round trip: the JSON-mode text read with the JSON keywords, and the Python-mode text read with
+the Python keywords, give the value back (dict entries in sorted key order). -/
+theorem read_render (L : Limits) (v : J) (off : Nat) (h : WF v) :
+    read jsonConsts (text (gen jsonConsts L v off)) = some (norm v) ∧
+    read pyConsts (text (gen pyConsts L v off)) = some (norm v) := by
+  obtain ⟨h1, h2⟩ := no_loss L v off h
+  simp [read, h1, h2, parse_toks]
+
+/-- `norm v` is the same value: equal up to the order of the entries of dicts (what Python's `==`
+compares) -/
+theorem norm_perm (v : J) : Eqv v (norm v) := norm_eqv v
+
+/-- in `norm v` — hence, by `no_loss`, in the printed text — the entries of every dict come in
+strictly increasing code-point order of their keys -/
+theorem keys_sorted (v : J) (h : DistinctKeys v) : KeysSorted (norm v) := norm_keysSorted v h
+
+/-- The line iteration and the text agree: joining the lines of `_gen_ch_lines` with line feeds is
+the plain text (no line is lost at the end, no empty line appears). -/
+theorem lines (c : Consts) (L : Limits) (v : J) (off : Nat) :
+    joinLines (groupLines (gen c L v off)) = text (gen c L v off) :=
+  joinLines_groupLines_gen c L v off
+
+/-- The reader is a function on texts and reads the canonical tokens of every value back, so two
+values with the same printed text have the same `norm` (the text determines the value). -/
+theorem text_determines_value (L : Limits) (v w : J) (off off' : Nat) (hv : WF v) (hw : WF w)
+    (h : text (gen jsonConsts L v off) = text (gen jsonConsts L w off')) : norm v = norm w := by
+  have a := (read_render L v off hv).1
+  have b := (read_render L w off' hw).1
+  rw [h, b] at a
+  exact (Option.some.inj a).symm
+
+/-! Non-vacuity: a value that is in the domain and exercises the layouts, evaluated by the kernel
+with the numbers of the source. -/
+
+/-- a dict (unsorted keys) holding a list that must be wrapped, a nested dict and constants -/
+def sample : J :=
+  .dict [("zz".toList, .list (List.replicate 70 (.str "abcdefgh".toList))),
+         ("b".toList, .dict [("k".toList, .num "-1.5e+22".toList), ("a".toList, .kw .nul)]),
+         ("a b".toList, .list [.kw .tt, .list [], .dict [], .list [.kw .ff]])]
+
+example : WF sample := by
+  simp only [sample, WF, WFEntries, WFList, List.replicate]
+  decide
+
+example : DistinctKeys sample := by
+  simp only [sample, DistinctKeys, DistinctKeysD, DistinctKeysL, List.replicate]
+  decide
+
+example : (lex jsonConsts (text (gen jsonConsts limits sample 0))) = some (toks (norm sample)) := by
+  decide +kernel
+
+example : (read pyConsts (text (gen pyConsts limits sample 0))).map toks = some (toks (norm sample)) := by
+  decide +kernel
+
+/-- the wrapped layout is really used for `sample` (7 lines for the 70 strings) and the keys come
+out sorted -/
+example : (groupLines (gen jsonConsts limits sample 0)).length = 19 := by decide +kernel
+
 end C11
